@@ -7,7 +7,7 @@
 From Coq Require Import ZArith List Bool.
 From ADV Require Import C10.Gen C10.Model C10.ModelSparse C10.Spec C10.ProofsIndex C10.ProofsViews C10.ProofsIter C10.ProofsIterSkip C10.ProofsOps C10.ProofsTip C10.ProofsTipGen C10.ProofsOpsView C10.ProofsSparse C10.ProofsSparseT
                         C10.GenAcc C10.ProofsAcc C10.ProofsPermView C10.ProofsTipAll C10.ProofsTipView
-                        C10.ModelBin C10.ProofsBinView C10.ProofsJoint.
+                        C10.ModelBin C10.ProofsBinView C10.ProofsJoint C10.ModelMap C10.ProofsMap C10.GenLoop C10.ProofsLoop.
 Import ListNotations.
 Open Scope Z_scope.
 
@@ -544,3 +544,102 @@ Example joint_iterator_nontrivial :
   mJoint false H (DenseP.SLICE p 0 2 0 2) (DenseP.T (DenseP.SLICE p 1 3 1 3))
   = ROk [0; 0; 1; 1; 0; 0; 1; 1; 2; 8; 1; 0; 1; 4; 6; 1; 1; 0; 0; 9].
 Proof. exact joint_nontrivial. Qed.
+
+(* ---- 6e. callbacks, matrix (op) scalar, Outer, Equals, ConstDiag on views (ModelMap.v) ----
+   view.Map(f) / view.MapSet(f) / the writing iterator  for it := view.Iterator(); it.Ok(); it.Next() { f(it.Get()) }
+   with ANY callback f that sees the element it is handed and its own closure state (St, any type; the callback may
+   write anything, also zeros), view.Reduce(f, r) with any f, view.MaddS/MsubS/MmulS(view | matrix elsewhere, c),
+   view.Outer(a, b), Equals in both positions, ConstDiag -- on EVERY well-formed view, every storage content:
+   same final closure state / result / panic as the same call on an independent deep copy; the view is left with the
+   copy's elements; every cell the view does not denote and every other storage is untouched (frame); the heap IS the
+   copy's elements written back through the view. *)
+Theorem callbacks_on_view_equal_callbacks_on_copy : forall real H (m : mat), wf_in H m ->
+  exists H' c, deep_copy real H m = ROk (H', c) /\ d_values c <> d_values m /\ whole c /\ wf_in H' c /\
+    (forall St (f : St -> Z -> St * Z) s,
+       relR (cb_result real H m c) (mMap real St f s H m) (mMap real St f s H' c) /\
+       relR (cb_result real H m c) (mMapSet real St f s H m) (mMapSet real St f s H' c) /\
+       relR (cb_result real H m c) (mIterMap real St f s H m) (mIterMap real St f s H' c)) /\
+    (forall A (f : A -> Z -> A) r, mReduce real A f r H m = mReduce real A f r H' c) /\
+    (forall fz cz, relR (view_result real H m c) (mEwS real fz H m m cz) (mEwS real fz H' c c cz)) /\
+    (forall fz cz a, elsewhere H m a -> relR (view_result real H m c) (mEwS real fz H m a cz) (mEwS real fz H' c a cz)) /\
+    (forall a b, relR (view_result real H m c) (mOuter real H m a b) (mOuter real H' c a b)) /\
+    (forall b, (d_values b < length H)%nat ->
+       mEquals real H m b = mEquals real H' c b /\ mEquals real H b m = mEquals real H' b c) /\
+    mEquals real H m m = mEquals real H' c c /\
+    mConstDiag real H m = mConstDiag real H' c.
+Proof. exact ProofsMap.callbacks_on_view_equal_callbacks_on_copy. Qed.
+(* what [cb_result] / [view_result] say, spelled out *)
+Theorem callback_result_meaning : forall St real H (m c : mat) (r r' : St * heap),
+  cb_result real H m c r r' <->
+  (fst r = fst r' /\ wf_in (snd r) m /\ wf_in (snd r') c /\
+   (forall i j, mAT real (snd r) m i j = mAT real (snd r') c i j) /\ frame m H (snd r) /\
+   fill real (fun i j => elem real (snd r') c (i, j)) m (mpos real m) H = ROk (snd r)).
+Proof. exact cb_result_meaning. Qed.
+(* ... for every finite composition of Slice / ConstSlice / T over a base matrix b; in addition every element of the
+   parent that the window does not denote keeps its value *)
+Theorem callbacks_on_composed_view : forall real H l (b : mat), wf_in H b -> guards l (d_rows b, d_cols b) ->
+  let m := apply_views real b l in
+  exists H' c, deep_copy real H m = ROk (H', c) /\ d_values c <> d_values b /\ whole c /\
+    forall St (f : St -> Z -> St * Z) s,
+      let P := fun (r r' : St * heap) => cb_result real H m c r r' /\
+                 forall i' j', in_range b i' j' -> (forall i j, in_range m i j -> coord l (i, j) <> (i', j')) ->
+                   mAT real (snd r) b i' j' = mAT real H b i' j' in
+      relR P (mMap real St f s H m) (mMap real St f s H' c) /\
+      relR P (mMapSet real St f s H m) (mMapSet real St f s H' c) /\
+      relR P (mIterMap real St f s H m) (mIterMap real St f s H' c).
+Proof. exact ProofsMap.callbacks_on_composed_view. Qed.
+(* Reduce is the left fold of the callback over the elements read through the view in ROW-MAJOR order (so its
+   result depends on the elements the view denotes and on nothing else); MapSet is Map *)
+Theorem reduce_is_fold_of_row_major_elements : forall real A (f : A -> Z -> A) r H (m : mat),
+  mReduce real A f r H m = (l <- read_all real H m ;; ROk (fold_left f l r)) /\
+  forall St (g : St -> Z -> St * Z) s, mMapSet real St g s H m = mMap real St g s H m.
+Proof. exact reduce_fold_and_mapset. Qed.
+Example callbacks_on_view_nontrivial :
+  let H := [[1; 2; 3; 4; 0; 6; 7; 8; 9; 10; 11; 12]] in
+  let m := apply_views false (new_mat 0 3 4) [VT; VSlice 1 3 0 2] in
+  wf_in H m /\ guards [VT; VSlice 1 3 0 2] (3, 4) /\ read_all false H m = ROk [2; 6; 3; 7] /\
+  opt_of (r <- mMap false Z (cb_affine 2 1 1) 5 H m ;; ROk (fst r, store_of (snd r) 0))
+    = Some (148, [1; 15; 73; 4; 0; 39; 155; 8; 9; 10; 11; 12]) /\
+  opt_of (r <- mIterMap false Z (cb_affine 2 1 1) 5 H m ;; ROk (fst r, store_of (snd r) 0))
+    = Some (148, [1; 15; 73; 4; 0; 39; 155; 8; 9; 10; 11; 12]) /\
+  opt_of (mReduce false Z (red_affine 2 1) 5 H m) = Some 148 /\
+  opt_of (r <- deep_copy false H m ;; mReduce false Z (red_affine 2 1) 5 (fst r) (snd r)) = Some 148 /\
+  opt_of (H1 <- mOuter false H m [1; 2] [3; 4] ;; ROk (store_of H1 0)) = Some [1; 3; 6; 4; 0; 4; 8; 8; 9; 10; 11; 12] /\
+  opt_of (H1 <- mEwS false 2 H m m 3 ;; ROk (store_of H1 0)) = Some [1; 6; 9; 4; 0; 18; 21; 8; 9; 10; 11; 12].
+Proof. exact ProofsMap.callbacks_on_view_nontrivial. Qed.
+
+(* Map / MapSet in closed form, on EVERY well-formed view: the callback is run over the elements the view denotes in
+   ROW-MAJOR order, threading its closure state ([map_accum]); afterwards the view holds, in row-major order, exactly
+   the values the callback produced; frame *)
+Theorem map_closed_form : forall real St (f : St -> Z -> St * Z) s H (m : mat), wf_in H m ->
+  exists l H1, read_all real H m = ROk l /\
+    mMap real St f s H m = ROk (fst (map_accum f s l), H1) /\
+    mMapSet real St f s H m = ROk (fst (map_accum f s l), H1) /\
+    read_all real H1 m = ROk (snd (map_accum f s l)) /\ wf_in H1 m /\ frame m H H1.
+Proof. exact ProofsMap.map_closed_form. Qed.
+Example map_closed_form_nontrivial :
+  map_accum (cb_affine 2 1 1) 5 [2; 6; 3; 7] = (148, [15; 39; 73; 155]).
+Proof. exact ProofsMap.map_closed_form_nontrivial. Qed.
+
+(* ---- 6f. the traversal of EVERY cell-by-cell whole-matrix method, re-derived from the source on every run ----
+   GenLoop.v (go2coq_c10/loops.go, all nine dense instantiations): Reset, SetIdentity, Set, Map, MapSet, Reduce,
+   Equals/EQUALS, M{add,sub,mul,div}{M,S} and their upper-case twins, Outer/OUTER are  for i < rows { for j < cols {  over
+   the receiver's Dims() reaching matrices only through At / AT / ConstAt / index (i, j) (never raw offsets into the backing
+   array); IsSymmetric walks the upper triangle.  The model's loops have exactly that shape. *)
+Theorem cellwise_methods_walk_row_major_through_index : forall p,
+  In p LoopDenseP.table \/ In p LoopDenseR.table -> snd p = expected_kind (fst p).
+Proof. exact ProofsLoop.cellwise_methods_walk_row_major_through_index. Qed.
+Theorem loop_table_complete : map fst LoopDenseP.table = seq 0 27 /\ map fst LoopDenseR.table = seq 0 27.
+Proof. exact ProofsLoop.loop_table_complete. Qed.
+Theorem model_loops_are_row_major_folds : forall real (m : mat),
+  mpos real m = row_major (d_rows m) (d_cols m) /\
+  (forall St f s H, mMap real St f s H m = foldR (map_step real St f m) (row_major (d_rows m) (d_cols m)) (s, H)) /\
+  (forall St f s H, mMapSet real St f s H m = foldR (mapset_step real St f m) (row_major (d_rows m) (d_cols m)) (s, H)) /\
+  (forall A f r H, mReduce real A f r H m =
+     foldR (fun r p => v <- mAT real H m (fst p) (snd p) ;; ROk (f r v)) (row_major (d_rows m) (d_cols m)) r) /\
+  (forall H i j, mAT real H m i j = (k <- of_opt (DenseP.index m i j) ;; get (store_of H (d_values m)) k)).
+Proof. exact ProofsLoop.model_loops_are_row_major_folds. Qed.
+Example loop_table_nontrivial :
+  LoopDenseP.l_Map = RowMajorCells /\ LoopDenseR.l_MADDS = RowMajorCells /\ LoopDenseP.l_IsSymmetric = UpperTriangleCells /\
+  expected_kind 6 = UpperTriangleCells /\ expected_kind 3 = RowMajorCells.
+Proof. repeat split. Qed.
